@@ -18,6 +18,7 @@ from proof_generation.interpreter import ExecutionPhase  # noqa: E402
 from proof_generation.proved import Proved  # noqa: E402
 from proof_generation.serializing_interpreter import SerializingInterpreter  # noqa: E402
 import proof_generation.pattern as P  # noqa: E402
+from frozendict import frozendict  # noqa: E402
 
 from . import bridge  # noqa: E402
 from . import refmachine as rm  # noqa: E402
@@ -254,6 +255,7 @@ MACRO_POOL = [
     P.ESubst(P.MetaVar(0), P.EVar(0), P.EVar(1)), P.Mu(0, P.SVar(0)), P.top(), P.MetaVar(1, e_fresh=(P.EVar(0),)),
     P.App(P.Symbol('a'), P.EVar(0)), P.equiv(P.MetaVar(0), P.MetaVar(1)), P.Implies(P.Symbol('a'), P.Symbol('b')),
     P.SSubst(P.MetaVar(0), P.SVar(0), P.EVar(0)),
+    P.Instantiate(P.Implies(P.MetaVar(0), P.MetaVar(1)), frozendict({1: P.EVar(0), 0: P.Symbol('a')})),
 ]
 MACRO_EVENTS = [(f'pattern {p}', ev_pattern(p)) for p in MACRO_POOL]
 
